@@ -243,3 +243,59 @@ Theorem C03_model_passes_on_the_wire : forall v,
   l_var (dec_lcase v) = fixed -> ok_C03 (dec_lcase v) (dec_obs (lts_run v)) = true.
 Proof. exact (fun v H => proj1 (wire_model_passes v H)). Qed.
 Print Assumptions C03_model_passes_on_the_wire.
+
+(* ---- 9. transport adapters ---------------------------------------------------------------------
+   What a client and the process-wide counters show when consumers are released, stated as a
+   specification over the script of a run (attach i / stop i / stream end) in Model/C01Wire.v
+   ([snap_step]): a snapshot = consumers on the stream, active RTSP / FLV / WSP connections relative
+   to their values before the first attach, and per client whether its connection has ended.
+   Proved here: the specification has the two properties the statement asks for (a stop ends that
+   client's connection only and takes exactly its share of the counters; the end of the stream ends
+   every connection and returns every counter), the oracle [ok_release] accepts the specification's
+   own run, and — for the RTSP adapters — the session side of the chain: a session that is torn
+   down or disconnected releases what it held (C12's theorem, restated).
+   Only checked (stream "transport-release" of checks/c03.py, real handlers on sockets): that the
+   real adapters meet the specification, i.e. the link Consumer.Close -> Session.Close -> connection
+   closed -> process() exits -> counter released (RTSP/ws-rtsp/WSP), closeCh -> handler returns
+   (HTTP-FLV), conn.Close -> read loop ends (ws-FLV), and StopConsume on the client's own goodbye. *)
+From V Require C01Wire C01WireProofs C12RtspSession C12RtspInv.
+
+Theorem C03_wire_stop_is_local : forall refs kinds s i,
+  nth i (C01Wire.sn_closed s) true = false ->
+  let s' := C01Wire.snap_step refs kinds s (C01Wire.TStop i) in
+  (forall j, j <> i -> nth j (C01Wire.sn_closed s') true = nth j (C01Wire.sn_closed s) true) /\
+  C01Wire.sn_cc s' = (C01Wire.sn_cc s - C01Wire.cons_weight refs (nth i kinds 0))%Z /\
+  (C01Wire.sn_rtsp s' + C01Wire.sn_flv s' + C01Wire.sn_wsp s' =
+    C01Wire.sn_rtsp s + C01Wire.sn_flv s + C01Wire.sn_wsp s
+    - C01Wire.b2z (C01Wire.is_rtsp_kind (nth i kinds 0)) - C01Wire.b2z (C01Wire.is_flv_kind (nth i kinds 0))
+    - C01Wire.b2z (C01Wire.is_wsp_kind (nth i kinds 0)))%Z.
+Proof. exact C01WireProofs.release_stop_is_local. Qed.
+Print Assumptions C03_wire_stop_is_local.
+
+Theorem C03_wire_end_is_total : forall refs kinds s,
+  let s' := C01Wire.snap_step refs kinds s C01Wire.TEnd in
+  C01Wire.sn_cc s' = 0%Z /\ C01Wire.sn_rtsp s' = 0%Z /\ C01Wire.sn_flv s' = 0%Z /\ C01Wire.sn_wsp s' = 0%Z /\
+  forall j, (j < length (C01Wire.sn_closed s))%nat -> nth j (C01Wire.sn_closed s') false = true.
+Proof. exact C01WireProofs.release_end_is_total. Qed.
+Print Assumptions C03_wire_end_is_total.
+
+Theorem C03_wire_model_passes : forall refs kinds es,
+  C01Wire.ok_release refs kinds es (C01Wire.snap_run refs kinds (C01Wire.snap0 kinds) es) = true.
+Proof. exact C01WireProofs.release_model_passes. Qed.
+Print Assumptions C03_wire_model_passes.
+
+(* the RTSP session side (C12): TEARDOWN and disconnect give back whatever the session held *)
+Theorem C03_wire_rtsp_session_releases : forall e s q,
+  C12RtspSession.s_closed s = false ->
+  (C12RtspSession.q_meth q = C12RtspSession.MTeardown ->
+     C12RtspSession.step e s q =
+       (C12RtspSession.closed_of s, [C12RtspSession.resp 200 q],
+        [C12RtspSession.ERelease (C12RtspSession.s_held s); C12RtspSession.EClose])) /\
+  C12RtspSession.disconnect s =
+    (C12RtspSession.closed_of s, [C12RtspSession.ERelease (C12RtspSession.s_held s); C12RtspSession.EClose]) /\
+  (forall ext w, C12RtspSession.s_closed (C12RtspSession.closed_of s) = true /\
+                 C12RtspSession.s_held (C12RtspSession.closed_of s) = C12RtspSession.HNone /\
+                 C12RtspSession.reg_no_self
+                   (C12RtspSession.registry ext (C12RtspSession.s_held (C12RtspSession.closed_of s)) w) = true).
+Proof. exact C12RtspInv.teardown_or_disconnect_releases. Qed.
+Print Assumptions C03_wire_rtsp_session_releases.
